@@ -121,6 +121,12 @@ class Harness(object):
             def __init__(self, cid):
                 self.cid = cid
 
+            def __exit__(self, ty, value, tb):
+                try:
+                    return contexts.NonAsyncContext.__exit__(self, ty, value, tb)
+                finally:
+                    H.emit(["ctxX", self.cid])
+
         self.HBatch, self.HItem, self.HCtx, self.HNonAsync = HBatch, HItem, HCtx, HNonAsync
         self.scoped_value = scoped_value
         self._override_cls = None
